@@ -142,8 +142,21 @@ R2Cases(z) ==
       ri \in RemInner, r2i \in Rem2Kinds}
 
 \* ------------------------------------------------------------ selection
+\* ------------------------------------------------------------ R3: a Loader document refers to a resource EMBEDDED in the root
+\* root.r -> mid.json -> emb.json (embedded under the root's $defs), by relative / absolute URI, with and without
+\* fragments.  L0: the URI identifies the embedded resource.  The package asks the Loader for emb.json instead and
+\* fails: known finding KF-crossdoc-C03 (every failure of these universes carries the feature "crossdoc-embedded").
+MidU == H1(<<"dir", "mid.json">>)
+R3Root == [defs |-> [t |-> Tgt(0), emb |-> [id |-> IdOf(RelRef(<<"emb.json">>)), const |-> Num(Mark[3]), defs |-> [t |-> Tgt(3)]]],
+           properties |-> [r |-> [ref |-> RefTo(<<"mid.json">>, FragNone)]]]
+R3Refs == {RefTo(<<"emb.json">>, FragNone), RefTo(<<"emb.json">>, FragName("a")), RefTo(<<"emb.json">>, PDefsT),
+           Ref(H1(<<"dir", "emb.json">>), FragNone), Ref(H1(<<"dir", "emb.json">>), FragName("zz"))}
+R3Cases == {[u |-> [docs |-> <<[uri |-> RootU, s |-> R3Root], [uri |-> MidU, s |-> m]>>],
+             insts |-> [i \in 1..5 |-> Obj([r |-> Num(Mark[i])])]] :
+               m \in {[ref |-> rf] : rf \in R3Refs} \cup {[items |-> [ref |-> rf]] : rf \in {RefTo(<<"emb.json">>, FragNone)}}}
 AllCases == CASE Family = "R1" -> {c \in R1Cases(0) : DomainOK(c.u, "2020")}
               [] Family = "R2" -> {c \in R2Cases(0) : DomainOK(c.u, "2020")}
+              [] Family = "R3" -> {c \in R3Cases : DomainOK(c.u, "2020")}
 
 VARIABLES insts
 mvars == <<U, dr, faults, loaded, calls, acts, infos, targets, status, insts>>
@@ -165,6 +178,7 @@ Spec == MCInit /\ [][MCNext]_mvars /\ WF_mvars(MCNext)
 Final == status \in {"ok", "err", "panic"}
 
 UF == [docs |-> U.docs, faults |-> SetToSeq(faults)]
+Feat == IF HasCrossEmb(U, dr) THEN <<"crossdoc-embedded">> ELSE <<>>
 Emit ==
   Final =>
     PrintT(<<"CASE", ToJson(
@@ -172,6 +186,6 @@ Emit ==
         THEN [u |-> UF, insts |-> insts, res |-> "ok",
               exp |-> [i \in DOMAIN insts |-> IF Ev(U, dr, Addr(1, <<>>), insts[i], <<>>).ok THEN "T" ELSE "F"],
               loads |-> SetToSeq({U.docs[d].uri : d \in NeededDocs(U, dr) \ {1}}),
-              targets |-> SetToSeq(DesignatedTargets(U, dr))]
-        ELSE [u |-> UF, insts |-> insts, res |-> "err", exp |-> <<>>])>>)
+              targets |-> SetToSeq(DesignatedTargets(U, dr)), feat |-> Feat]
+        ELSE [u |-> UF, insts |-> insts, res |-> "err", exp |-> <<>>, feat |-> Feat])>>)
 ====
